@@ -126,7 +126,8 @@ impl IndexRead {
             hunks.extend(
                 entries
                     .into_iter()
-                    .filter(|entry| entry.is_file())
+                    // An interrupted write can leave an empty file: that hunk is not present.
+                    .filter(|entry| entry.is_file() && entry.len != Some(0))
                     .filter_map(|entry| entry.name.parse::<u32>().ok())
                     .sorted(),
             )
@@ -138,18 +139,23 @@ impl IndexRead {
     /// skipping any that are not present.
     pub async fn iter_available_hunks(self) -> IndexHunkIter {
         let _span = debug_span!("iter_hunks", ?self.transport).entered();
+        let mut errors = Vec::new();
         let hunks = match self.hunks_available().await {
             Ok(hunks) => hunks,
             Err(err) => {
                 error!("Error listing index hunks: {err}");
+                errors.push(err);
                 Vec::new()
             }
         };
         debug!(?hunks);
         IndexHunkIter {
+            hunks_listed: hunks.len(),
             hunks: hunks.into_iter(),
             index: self,
             after: None,
+            next_expected: 0,
+            errors,
         }
     }
 }
@@ -162,6 +168,13 @@ pub struct IndexHunkIter {
     pub index: IndexRead,
     /// If set, yield only entries ordered after this apath.
     after: Option<Apath>,
+    /// How many hunk files were found in the index directory.
+    hunks_listed: usize,
+    /// The hunk number that should come next, if none is missing.
+    next_expected: u32,
+    /// Problems met so far: hunks that are missing or can't be read are skipped, and
+    /// remembered here for the caller to report.
+    errors: Vec<Error>,
 }
 
 impl IndexHunkIter {
@@ -171,10 +184,17 @@ impl IndexHunkIter {
     pub async fn next(&mut self) -> Option<Vec<IndexEntry>> {
         loop {
             let hunk_number = self.hunks.next()?;
+            if hunk_number != self.next_expected {
+                self.errors.push(Error::InvalidMetadata {
+                    details: format!("Index hunk {} is missing", self.next_expected),
+                });
+            }
+            self.next_expected = hunk_number + 1;
             let entries = match self.index.read_hunk(hunk_number).await {
                 Ok(None) => return None,
                 Ok(Some(entries)) => entries,
-                Err(_err) => {
+                Err(err) => {
+                    self.errors.push(err);
                     continue;
                 }
             };
@@ -225,6 +245,16 @@ impl IndexHunkIter {
             entries.extend(hunk);
         }
         Ok(entries)
+    }
+
+    /// Take the errors met so far while listing and reading hunks.
+    pub fn take_errors(&mut self) -> Vec<Error> {
+        std::mem::take(&mut self.errors)
+    }
+
+    /// The number of hunk files found in the index directory.
+    pub fn hunks_listed(&self) -> usize {
+        self.hunks_listed
     }
 
     /// Advance self so that it returns only entries with apaths ordered after `apath`.
